@@ -80,7 +80,7 @@ type cfg struct {
 	Size     int    `json:"size"`
 	Chunk    int    `json:"chunk"`
 	Prefetch int    `json:"prefetch_chunk"`
-	Cache    string `json:"cache"` // memory | dir
+	Cache    string `json:"cache"`               // memory | dir
 	ReadSize int    `json:"read_size,omitempty"` // registry bodies arrive in pieces of this many bytes (0 = at once)
 }
 
@@ -778,6 +778,15 @@ func head(t []string, n int) []string {
 
 func main() {
 	runner.Main(runner.Check{
+		RacePass: func(n int, scratch string) (int, []string) {
+			total, ps := 0, []string(nil)
+			for _, cc := range concCases("quick") {
+				d, p := vexp.RacePass(concScenario(cc, scratch), n)
+				total += d
+				ps = append(ps, p...)
+			}
+			return total, ps
+		},
 		ID:          "C06",
 		Level:       "model_checking",
 		Rule:        "seq: every (blob size, chunk size, prefetch chunk, cache) config x every ReadAt(off,len)/Cache/Check/Refresh history up to the depth x every assignment of a non-default server reply (squash, whole body, 400, 403, transport error, redirect, truncated multipart, 500) to up to N requests, on the real Resolver/Blob over an in-memory registry; non-trivial = a history with an injected deviation that still had a successful operation. conc: 2-3 threads of overlapping ReadAt/Cache/Refresh under the cooperative scheduler, all schedules within the preemption bound x cache-loss / server-reply deviations. regionset: all add sequences vs a bitmap",
